@@ -97,6 +97,12 @@ def install(E):
             nz = zint(b.t) != 0 if not isinstance(b.t, int) else b.t != 0
             safe = If(nz, b.t, 1)
             return mk_opt(E, simp(nz), E.binop('Div', a, I(safe, ty), guard, func))
+        if name in ('overflowing_div', 'overflowing_rem', 'wrapping_div', 'wrapping_rem', 'div_euclid', 'rem_euclid') and not INT_TYS[ty][1]:
+            a, b = vals
+            zero = (b.t == 0) if isinstance(b.t, int) else (zint(b.t) == 0)
+            E.panic(And(guard, zero), 'division by zero', caller.fn.name)
+            r = E.binop('Div' if 'div' in name else 'Rem', a, b, guard, func)
+            return Tup([r, B(False)]) if name.startswith('overflowing') else r
         if name == 'div_ceil':
             a, b = vals
             zero = (b.t == 0) if isinstance(b.t, int) else (zint(b.t) == 0)
@@ -378,6 +384,18 @@ def install(E):
         # Some(&payload): reference into the option's own storage
         return En('Option', o.d, {1: [Ref(r.cell, r.path + (('v', 'Some'), ('f', 0, '?')))]})
     reg(r'^(?:std::option::|core::option::)?Option::<.*>::as_(?:ref|mut)$', h_option_as_ref)
+
+    def h_option_as_deref(E, m, func, argv, guard, mem, dty, caller):
+        o = deref(E, argv[0], mem, guard)
+        if not isinstance(o, En):
+            return NotImplemented
+        if simp(is_some(o)) is False:
+            return opt_none()
+        pl = o.vs.get(1)
+        if pl is None:
+            return NotImplemented
+        return En('Option', o.d, {1: [pl[0]]})
+    reg(r'^(?:std::option::|core::option::)?Option::<.*>::as_deref(?:_mut)?$', h_option_as_deref)
 
     # ---- Result --------------------------------------------------------------
     def h_result(E, m, func, argv, guard, mem, dty, caller):
@@ -874,6 +892,101 @@ def install(E):
         return Ref(r.cell, r.path + (('i', idx.t),))
     reg(r'^<(?:std::vec::)?Vec<.*> as (?:std::ops::)?Index(?:Mut)?<usize>>::index(?:_mut)?$', h_index)
     reg(r'^<\[.*\] as (?:std::ops::)?Index(?:Mut)?<usize>>::index(?:_mut)?$', h_index)
+
+    # ---- fixed arrays / byte slices ---------------------------------------------------
+    def arr_ref(E, v, mem, guard):
+        """resolve to (Ref, Tup) for arrays / fixed-length slices"""
+        r = v
+        while isinstance(r, Ref):
+            t = E.read_path(mem[r.cell], r.path, mem, guard, 'arr')
+            if isinstance(t, Ref):
+                r = t
+                continue
+            if isinstance(t, Tup):
+                return r, t
+            if isinstance(t, Seq) and t.prefix and isinstance(t.n, int):
+                return r, Tup(t.elems[:t.n])
+            raise Unsupported('expected array, got %r' % (t,))
+        if isinstance(r, Tup):
+            c = E.new_cell()
+            mem[c] = r
+            return Ref(c), r
+        raise Unsupported('expected array, got %r' % (r,))
+
+    def range_bounds(rng, n, kind=None):
+        """(lo, hi) of a Range / RangeTo / RangeFrom / RangeFull / RangeInclusive aggregate"""
+        name = kind or getattr(rng, 'name', '')
+        fs = rng.fs if isinstance(rng, Adt) else {}
+        def c(v):
+            if not isinstance(v, I) or not isinstance(v.t, int):
+                raise Unsupported('symbolic slice range bound')
+            return v.t
+        if name.endswith('RangeTo'):
+            return 0, c(fs[0])
+        if name.endswith('RangeFrom'):
+            return c(fs[0]), n
+        if name.endswith('RangeFull'):
+            return 0, n
+        if name.endswith('Range'):
+            return c(fs[0]), c(fs[1])
+        raise Unsupported('range kind ' + name)
+
+    def h_index_range(E, m, func, argv, guard, mem, dty, caller):
+        r, t = arr_ref(E, argv[0], mem, guard)
+        lo, hi = range_bounds(argv[1], len(t.fs), m.group(1))
+        if not (0 <= lo <= hi <= len(t.fs)):
+            E.panic(guard, 'slice range out of bounds', caller.fn.name)
+            return DIVERGE
+        return Ref(r.cell, r.path + (('sub', lo, hi),))
+    reg(r'^<\[.*\] as (?:std::ops::|core::ops::)?Index(?:Mut)?<(?:std::ops::|core::ops::)?(Range\w*)(?:<usize>)?>>::index(?:_mut)?$', h_index_range)
+
+    def h_copy_from_slice(E, m, func, argv, guard, mem, dty, caller):
+        dr, dt = arr_ref(E, argv[0], mem, guard)
+        sr, st = arr_ref(E, argv[1], mem, guard)
+        if len(dt.fs) != len(st.fs):
+            E.panic(guard, 'copy_from_slice length mismatch', caller.fn.name)
+            return DIVERGE
+        mem[dr.cell] = E.write_path(mem[dr.cell], dr.path, Tup(st.fs), mem, guard, 'copy_from_slice')
+        return UNIT
+    reg(r'^core::slice::<impl \[.*\]>::(?:copy|clone)_from_slice$', h_copy_from_slice)
+
+    def h_split_at(E, m, func, argv, guard, mem, dty, caller):
+        r, t = arr_ref(E, argv[0], mem, guard)
+        k = argv[1]
+        if not isinstance(k.t, int):
+            raise Unsupported('symbolic split point')
+        if k.t > len(t.fs):
+            E.panic(guard, 'split_at out of bounds', caller.fn.name)
+            return DIVERGE
+        return Tup([Ref(r.cell, r.path + (('sub', 0, k.t),)), Ref(r.cell, r.path + (('sub', k.t, len(t.fs)),))])
+    reg(r'^core::slice::<impl \[.*\]>::split_at(?:_mut)?$', h_split_at)
+
+    def h_slice_to_array(E, m, func, argv, guard, mem, dty, caller):
+        v = argv[0]
+        n = int(m.group(1))
+        if isinstance(v, Ref):
+            r, t = arr_ref(E, v, mem, guard)
+        elif isinstance(v, Tup):
+            t = v
+        else:
+            return NotImplemented
+        ok = len(t.fs) == n
+        if m.group(2):   # returns a reference to the array
+            val = v if isinstance(v, Ref) else t
+        else:
+            val = Tup(t.fs)
+        return En('Result', 0 if ok else 1, {0: [val], 1: [UNIT]})
+    reg(r'^<&?(?:mut )?\[\w+\] as (?:std::convert::|core::convert::)?TryInto<(?:&(?:mut )?)?\[\w+; (\d+)\]>>::try_into()$', h_slice_to_array)
+    reg(r'^<\[\w+; (\d+)\] as (?:std::convert::|core::convert::)?TryFrom<&(?:mut )?\[\w+\]>>::try_from()$', h_slice_to_array)
+
+    def h_array_identity(E, m, func, argv, guard, mem, dty, caller):
+        v = argv[0]
+        if isinstance(v, Tup):
+            return v
+        return NotImplemented
+    reg(r'^<\[(\w+); (\d+)\] as (?:std::convert::|core::convert::)?(?:Into|From)<\[\1; \2\]>>::(?:into|from)$', h_array_identity)
+    reg(r'^<\[\w+; \d+\] as (?:std::convert::|core::convert::)?TryInto<\[\w+; \d+\]>>::try_into$',
+        lambda E, m, func, argv, guard, mem, dty, caller: En('Result', 0, {0: [argv[0]], 1: [UNIT]}) if isinstance(argv[0], Tup) else NotImplemented)
 
     # ---- channel type features (lightning-types) -------------------------------------
     def h_features(E, m, func, argv, guard, mem, dty, caller):
